@@ -27,7 +27,7 @@ BagEq(p, q) == Len(p) = Len(q) /\ \A x \in Rng(p) \cup Rng(q) : Count(p, x) = Co
 \* the implicit variables of the homes (self, selected) are not variables of the body
 OwnVars(e) == {v \in Rng(e.facts.vars) : v.n \notin {"self", "selected", "Self", "Selected", "SELF", "SELECTED"}}
 
-Conform(e) == FirstBad(<<
+Conform(e) == IF e.err # "" THEN "prebuilds" ELSE FirstBad(<<
     <<"prebuilds", e.err = "">>,
     <<"consistent", e.consistent # "no">>,
     <<"one_subtype", \A i \in DOMAIN e.facts.subtype_counts : e.facts.subtype_counts[i] = 1>>,
